@@ -90,6 +90,7 @@ type HarnessStats struct {
 	Stubs        map[string]int
 	WallS        float64
 	AssertLabels map[string]int
+	Notes        []string
 }
 
 func newStats() *HarnessStats {
@@ -126,6 +127,7 @@ type PathState struct {
 	mapSeq   int
 	clock    *Term
 	hashApps []hashApp
+	sigApps  []hashApp
 	ended    bool
 	killing      bool
 	pendingAbort interface{}
@@ -500,6 +502,7 @@ func (m *Machine) assertCond(c *Term, label, kind string) {
 		return
 	case "unknown":
 		m.stats.Inconclusive++
+		m.note("assertion query unknown (timeout): " + label)
 		m.commit(idx, Decision{Kind: 'a', Choice: 1}, c)
 		return
 	}
@@ -532,11 +535,18 @@ func (m *Machine) recordViolation(extra *Term, label, kind string, stack []strin
 	vars, ok := m.modelVars(extra)
 	if !ok {
 		m.stats.Inconclusive++
+		m.note("no model for violation candidate (solver unknown): " + label)
 		return
 	}
 	v := &Violation{Pkg: m.cfg.Pkg, Harness: m.cfg.Name, Label: label, Kind: kind, Vars: vars, Stack: stack,
 		Site: m.innermostRepoFn(stack), Path: append([]Decision{}, m.path.taken...)}
 	m.stats.Violations = append(m.stats.Violations, v)
+}
+
+func (m *Machine) note(s string) {
+	if len(m.stats.Notes) < 8 {
+		m.stats.Notes = append(m.stats.Notes, s)
+	}
 }
 
 func (m *Machine) reach(label string) {
@@ -782,6 +792,7 @@ func runHarness(ld *Loaded, fn *ssa.Function, cfg *HarnessCfg, nworkers int, mir
 		for k, v := range st.AssertLabels {
 			res.AssertLabels[k] += v
 		}
+		res.Notes = append(res.Notes, st.Notes...)
 	}
 	res.Witnesses = ex.wlist
 	sort.Slice(res.Witnesses, func(i, j int) bool { return res.Witnesses[i].Label < res.Witnesses[j].Label })
